@@ -230,7 +230,12 @@ size_t Decode(const char *base64_ptr, size_t base64_len, void *raw_data_ptr, siz
         if (c == BASE64_PAD)
             break;
 
-        uint8_t v = base64de[int(c)];
+        //! bytes >= 0x80 are not Base64 characters (and must not index the table)
+        uint8_t uc = static_cast<uint8_t>(c);
+        if (uc >= sizeof(base64de))
+            return 0;
+
+        uint8_t v = base64de[uc];
         if (v == 255)
             return 0;
 
@@ -277,7 +282,12 @@ size_t Decode(const std::string &base64_str, std::vector<uint8_t> &raw_data)
         if (c == BASE64_PAD)
             break;
 
-        uint8_t v = base64de[int(c)];
+        //! bytes >= 0x80 are not Base64 characters (and must not index the table)
+        uint8_t uc = static_cast<uint8_t>(c);
+        if (uc >= sizeof(base64de))
+            return 0;
+
+        uint8_t v = base64de[uc];
         if (v == 255)
             return 0;
 
